@@ -1,6 +1,6 @@
 /-
 Model of `html::tagfilter` and `html::tagfilter_block` (src/html.rs), every index explicit.
-`tagfilterE` is the code as written: `literal[j]` is read without a bounds check, so the
+`tagfilterE` is the code as it was written on the pinned tree: `literal[j]` is read without a bounds check, so the
 model returns `none` (= Rust panic) when `j` is past the end.  `tagfilter` is the total
 function used by the renderer model (equal to `tagfilterE` whenever that is defined).
 -/
@@ -29,7 +29,8 @@ def tagfilterE (l : Bytes) : Option Bool :=
   | none => some false
   | some t => delimAt l (i + t.length)
 
-/-- Total version: an out-of-range delimiter position means "no match". -/
+/-- `tagfilter` as it is now (after the `fix:` commit adding `if j >= literal.len() { return false }`):
+    an out-of-range delimiter position means "no match". -/
 def tagfilter (l : Bytes) : Bool := (tagfilterE l).getD false
 
 /-- `tagfilter_block`: every `<` that opens a filtered tag is written as `&lt;`. -/
@@ -37,5 +38,40 @@ def tagfilterBlock : Bytes → Bytes
   | [] => []
   | b :: r => if b = 0x3C then (if tagfilter (b :: r) then S.v_lt else [0x3C]) ++ tagfilterBlock r
               else b :: tagfilterBlock r
+
+/-! ## Independent specification (GFM "Disallowed Raw HTML") -/
+
+/-- After the tag name: a white-space byte (class `sp`), `>`, or `/>`. -/
+def tagDelimW (sp : UInt8 → Bool) : Bytes → Bool
+  | c :: r => sp c || c == 0x3E || (c == 0x2F && (match r with | d :: _ => d == 0x3E | [] => false))
+  | [] => false
+
+/-- Drop one optional leading `/`. -/
+def stripSlash (r : Bytes) : Bytes :=
+  match r with
+  | c :: t => if c = 0x2F then t else r
+  | [] => []
+
+/-- `s` starts with `<`, optional `/`, one of the nine names in any letter case, then a delimiter. -/
+def disallowedAtW (sp : UInt8 → Bool) (s : Bytes) : Bool :=
+  match s with
+  | c :: r =>
+    if c = 0x3C then
+      tagBlacklist.any fun name => isPrefixCI name (stripSlash r) && tagDelimW sp ((stripSlash r).drop name.length)
+    else false
+  | [] => false
+
+/-- The GFM rule with the HTML tokenizer's white space (tab, LF, FF, CR, space). -/
+def disallowedAt (s : Bytes) : Bool := disallowedAtW htmlSpace s
+
+/-- The rule as comrak decides it: white space is `ctype::isspace` (no form feed). -/
+def disallowedAtC (s : Bytes) : Bool := disallowedAtW isSpace s
+
+/-- The rewrite the property prescribes: `<` becomes `&lt;` exactly at disallowed positions. -/
+def rewriteSpecW (sp : UInt8 → Bool) : Bytes → Bytes
+  | [] => []
+  | b :: r => (if b = 0x3C ∧ disallowedAtW sp (b :: r) = true then S.v_lt else [b]) ++ rewriteSpecW sp r
+
+def rewriteSpec (s : Bytes) : Bytes := rewriteSpecW htmlSpace s
 
 end Comrak
